@@ -308,6 +308,8 @@ def report(prop, tier, seed, harnesses, results, extra, wall):
     for k, v in r["witnesses"].items():
       wit[(r["harness"], k)] = wit.get((r["harness"], k), False) or v
   for h in harnesses:
+    if not h.properties or h.properties[0] != prop:
+      continue   # witnesses guard the harness's own property; secondary properties reuse its paths
     for w in h.required_witnesses:
       if not wit.get((h.name, w), False):
         if not any(r["harness"] == h.name and r["violations"] for r in results):
